@@ -541,7 +541,7 @@ func (fr *frame) runFrame() {
 		r := recover()
 		switch r := r.(type) {
 		case abortPath:
-			if r.kind != "halt" && r.kind != "infeasible" && !strings.Contains(r.msg, "TARGET STACK") {
+			if r.kind != "halt" && r.kind != "killed" && r.kind != "infeasible" && !strings.Contains(r.msg, "TARGET STACK") {
 				r.msg += "\nTARGET STACK: " + strings.Join(fr.stack(14), " <- ")
 			}
 			panic(r)
